@@ -173,10 +173,10 @@ func TestAddressFormulas(t *testing.T) {
 
 func TestLegacyValidity(t *testing.T) {
 	r := ev.New(t, prop, "TestLegacyValidity")
-	r.Rule("legacy 39-byte addresses: derived from public keys and then EVERY single-bit flip of the 39 bytes; random 35-byte prefixes completed with the correct checksum (format nibble 0 and 1..15); random 39-byte strings; checksum with 1..3 correct bytes; four bytes taken from another window of the right digest or from a related digest; oracle IsValidLegacyXMSSAddress(a) <=> (format nibble 0 and a[35:39] == SHA256(a[0:35])[28:32]); non-trivial = an address that is invalid for a single reason (one flipped bit, wrong format with right checksum, checksum partially right), distinct by content")
+	r.Rule("legacy 39-byte addresses: derived from public keys and then EVERY single-bit flip of the 39 bytes; random 35-byte prefixes completed with the correct checksum (format nibble 0 and 1..15); random 39-byte strings; checksum with 1..3 correct bytes; four bytes taken from another window of the right digest or from a related digest; a constant checksum field (zero, 0xFF) under supported and unsupported formats; oracle IsValidLegacyXMSSAddress(a) <=> (format nibble 0 and a[35:39] == SHA256(a[0:35])[28:32]); non-trivial = an address that is invalid for a single reason (one flipped bit, wrong format with right checksum, checksum partially right), distinct by content")
 	checks := r.PerShard(r.Pick(3000, 120000))
 	r.Rapid(t, "legacy", checks, func(rt *rapid.T) {
-		kind := rapid.SampledFrom([]string{"derived-all-flips", "prefix-right-checksum", "prefix-wrong-format", "random", "partial-checksum", "checksum-from-another-window", "checksum-from-another-window"}).Draw(rt, "kind")
+		kind := rapid.SampledFrom([]string{"derived-all-flips", "prefix-right-checksum", "prefix-wrong-format", "random", "partial-checksum", "checksum-from-another-window", "checksum-from-another-window", "constant-checksum"}).Draw(rt, "kind")
 		mk := func(prefix []byte) []byte {
 			s := sha256.Sum256(prefix[:35])
 			return append(append([]byte{}, prefix[:35]...), s[28:]...)
@@ -238,6 +238,25 @@ func TestLegacyValidity(t *testing.T) {
 				copy(b[35:], cs)
 				if bytes.Equal(b[35:39], d[28:]) {
 					b[38] ^= 1 // (2^-32) the wrong window happens to hold the right bytes
+				}
+			case "constant-checksum":
+				// the checksum field holds a constant (all zero, all 0xFF, the first body bytes): what a validator compares
+				// against when its expected value was never filled in; with the supported and with an unsupported format
+				if rapid.Bool().Draw(rt, "fmt0") {
+					b[1] &= 0x0f
+				} else {
+					b[1] = b[1]&0x0f | byte(rapid.IntRange(1, 15).Draw(rt, "af"))<<4
+				}
+				switch rapid.IntRange(0, 2).Draw(rt, "const") {
+				case 0:
+					copy(b[35:], []byte{0, 0, 0, 0})
+				case 1:
+					copy(b[35:], []byte{0xff, 0xff, 0xff, 0xff})
+				default:
+					copy(b[35:], b[0:4])
+				}
+				if d := sha256.Sum256(b[:35]); bytes.Equal(b[35:39], d[28:]) {
+					b[38] ^= 1
 				}
 			case "partial-checksum":
 				b[1] &= 0x0f
